@@ -68,8 +68,25 @@ var v08fShapes = [][][][]int{
 // verif:desc C08-O4 the combine OPERATOR (fan-in of parallel legs when no order is needed) executed with its real pullers (combine.New, Op.Pull/next/block/unwait, puller.run/wait goroutines, the queue and wait channels, op.Catcher) over 2-3 model legs: (a) without failures, pulling until EOS returns every value the legs delivered in this round exactly once and unchanged, nothing of the next round, and EOS only once EVERY leg has delivered its end of stream for the round; after the EOS the next round works the same way (platoon restart through unwait); (b) when one leg's Pull fails, combine.Pull returns that error (after at most all the batches of the round, never an EOS first) and no value was delivered twice.
 // verif:bounds 3 shapes: 2-3 legs x 2 rounds, per leg and round 0-2 batches of 0-2 values (a leg immediately at EOS, an empty batch last); values int64 with a symbolic payload byte and a concrete tag; failure: none, or leg f in 0..2 at its Pull number 0..2 (Choose)
 // verif:outside Pull(done=true)/propagateDone (errgroup), context cancellation, what the operator does after it returned an error; one deterministic goroutine schedule in the engine (the asserted facts do not depend on the schedule; the native replay runs the real goroutines)
-func VerifH_C08_O4_combine_exec() {
-	verif.Goroutines(true)
+func VerifH_C08_O4_combine_exec() { v08fCombine(0) }
+
+// verif:desc C08-O4s the same combine operator run and the same assertions under EVERY goroutine schedule with at most 1 preemption (thorough tier: 2) at the channel operations, selects, closes, atomics, lock operations and goroutine starts of the real puller/wait code, with a free choice of which runnable goroutine continues whenever one blocks or exits: results do not depend on the schedule
+// verif:bounds as VerifH_C08_O4_combine_exec; preemption bound 1 (thorough: 2)
+// verif:outside as VerifH_C08_O4_combine_exec, except that the schedule is explored up to the preemption bound; field loads/stores are not preemption points (data-race freedom between sync points is assumed)
+func VerifH_C08_O4s_combine_schedules() {
+	if verif.Thorough() {
+		v08fCombine(2)
+	} else {
+		v08fCombine(1)
+	}
+}
+
+func v08fCombine(sched int) {
+	if sched > 0 {
+		verif.Schedules(sched)
+	} else {
+		verif.Goroutines(true)
+	}
 	zctx := zed.NewContext()
 	shape := v08fShapes[verif.Choose("shape", len(v08fShapes))]
 	nlegs := len(shape[0])
@@ -97,7 +114,13 @@ func VerifH_C08_O4_combine_exec() {
 			for _, n := range shape[r][l] {
 				vals := make([]zed.Value, 0, n)
 				for i := 0; i < n; i++ {
-					x := verif.Byte("x" + string(rune('a'+tag)))
+					var x byte
+					if sched > 0 {
+						// schedules are the quantifier here: concrete payloads
+						x = byte(17*tag + 3)
+					} else {
+						x = verif.Byte("x" + string(rune('a'+tag)))
+					}
 					// int64 value = payload<<8 | tag
 					vals = append(vals, zed.NewInt64(int64(x)<<8|int64(tag)))
 					payload[tag], roundOf[tag] = x, r
